@@ -36,3 +36,8 @@ func (g *Galaxy) VerifResolveNetworks(req *galaxyapi.PodRequest, pod *corev1.Pod
 func (g *Galaxy) VerifCmdAdd(req *galaxyapi.PodRequest, pod *corev1.Pod) (types.Result, error) {
 	return g.cmdAdd(req, pod)
 }
+
+// VerifGetPod exposes getPod (how the daemon obtains the pod of a CNI request).
+func (g *Galaxy) VerifGetPod(name, namespace string) (*corev1.Pod, error) {
+	return g.getPod(name, namespace)
+}
